@@ -33,15 +33,15 @@ func c20CodeMeta(b []byte) (string, string) {
 	}
 	// documented layout: byte0 bit MetadataUpgradeable / MetadataReadable, byte1 bit MetadataPayable
 	want := vmcommon.CodeMetadata{
-		Upgradeable: b[0]&vmcommon.MetadataUpgradeable != 0,
-		Readable:    b[0]&vmcommon.MetadataReadable != 0,
-		Payable:     b[1]&vmcommon.MetadataPayable != 0,
+		Upgradeable: b[0]&refMetadataUpgradeable != 0,
+		Readable:    b[0]&refMetadataReadable != 0,
+		Payable:     b[1]&refMetadataPayable != 0,
 	}
 	if m != want {
 		return "codemeta/decode", sprintf("CodeMetadataFromBytes(%x) = %+v, want %+v", b, m, want)
 	}
 	back := m.ToBytes()
-	mask := []byte{b[0] & (vmcommon.MetadataUpgradeable | vmcommon.MetadataReadable), b[1] & vmcommon.MetadataPayable}
+	mask := []byte{b[0] & (refMetadataUpgradeable | refMetadataReadable), b[1] & refMetadataPayable}
 	if !bytes.Equal(back, mask) {
 		return "codemeta/bytes-roundtrip", sprintf("ToBytes(FromBytes(%x)) = %x, want %x", b, back, mask)
 	}
